@@ -1566,6 +1566,13 @@ func scanColumn(p []byte, col ColumnInfo, dest []interface{}) (int, error) {
 		return 0, errors.New("gocql: not enough columns to scan into")
 	}
 	if dest[0] == nil {
+		// a skipped column; a tuple column owns one destination per element
+		if tuple, ok := col.TypeInfo.(TupleTypeInfo); ok && len(tuple.Elems) > 0 {
+			if len(dest) < len(tuple.Elems) {
+				return 0, errors.New("gocql: not enough columns to scan into")
+			}
+			return len(tuple.Elems), nil
+		}
 		return 1, nil
 	}
 
